@@ -184,3 +184,264 @@ Section S.
     - unfold fuel_of. rewrite !app_length. lia.
   Qed.
 End S.
+
+(* ================================================================================================================
+   Effects: assignment, `when` block, forall. *)
+(* ---- the optional interval in front of a printed expression / fluent reference is absent ---- *)
+Definition noiv (ts : list token) : bool :=
+  match ts with
+  | TLsq :: _ => false
+  | TLp :: (TStart | TEnd) :: _ => false
+  | _ => true
+  end.
+Lemma noiv_none ts : noiv ts = true -> opt_interval ts = (None, ts).
+Proof.
+  unfold opt_interval. intros H. destruct ts as [|t ts]; [reflexivity|].
+  destruct t; try reflexivity; try discriminate.
+  destruct ts as [|t' ts]; [reflexivity|]. destruct t'; try reflexivity; discriminate.
+Qed.
+Lemma noiv_start ts : start_ok ts = true -> noiv (TLp :: ts) = true.
+Proof. destruct ts as [|[] ts]; cbn; congruence. Qed.
+
+Section E.
+  Variable W : wnames.
+  Variable R : rtables.
+  Variable arity : N -> nat.
+  Hypothesis HN : names_ok W R arity.
+
+  Lemma two_plus2 (l : list expr) : Nat.leb 2 (length l) = true -> exists x y l', l = x :: y :: l'.
+  Proof. destruct l as [|x [|y l']]; cbn; try discriminate. eauto. Qed.
+
+  Lemma noiv_pr e bs rest : anml_ok R arity bs e = true -> noiv (pr W e ++ rest) = true.
+  Proof.
+    destruct e; cbn [anml_ok]; try discriminate; intros Hok.
+    - destruct b; reflexivity.
+    - cbn [pr]. unfold pr_int. destruct (z <? 0)%Z; reflexivity.
+    - cbn [pr]. unfold pr_int. destruct (Qnum (this q) <? 0)%Z; reflexivity.
+    - reflexivity.
+    - reflexivity.
+    - reflexivity.
+    - destruct args; reflexivity.
+    - apply andb_prop in Hok. destruct Hok as [Hok Hl]. destruct (two_plus2 l Hl) as (x & y & l' & ->).
+      cbn [forallb] in Hok. apply andb_prop in Hok. destruct Hok as [Hx _].
+      cbn [pr map]. rewrite join_cons. cbn [app]. rewrite <- !app_assoc. apply noiv_start. eapply start_pr. exact Hx.
+    - apply andb_prop in Hok. destruct Hok as [Hok Hl]. destruct (two_plus2 l Hl) as (x & y & l' & ->).
+      cbn [forallb] in Hok. apply andb_prop in Hok. destruct Hok as [Hx _].
+      cbn [pr map]. rewrite join_cons. cbn [app]. rewrite <- !app_assoc. apply noiv_start. eapply start_pr. exact Hx.
+    - reflexivity.
+    - apply andb_prop in Hok. destruct Hok as [Hx _]. cbn [pr app]. rewrite <- !app_assoc. apply noiv_start. eapply start_pr. exact Hx.
+    - reflexivity.
+    - reflexivity.
+    - reflexivity.
+    - apply andb_prop in Hok. destruct Hok as [Hok Hl]. apply andb_prop in Hok. destruct Hok as [Hok _].
+      destruct (two_plus2 l Hl) as (x & y & l' & ->).
+      cbn [forallb] in Hok. apply andb_prop in Hok. destruct Hok as [Hx _].
+      cbn [pr map]. rewrite join_cons. cbn [app]. rewrite <- !app_assoc. apply noiv_start. eapply start_pr. exact Hx.
+    - do 3 (apply andb_prop in Hok; destruct Hok as [Hok _]).
+      cbn [pr app]. rewrite <- !app_assoc. apply noiv_start. eapply start_pr. exact Hok.
+    - apply andb_prop in Hok. destruct Hok as [Hok Hl]. apply andb_prop in Hok. destruct Hok as [Hok _].
+      destruct (two_plus2 l Hl) as (x & y & l' & ->).
+      cbn [forallb] in Hok. apply andb_prop in Hok. destruct Hok as [Hx _].
+      cbn [pr map]. rewrite join_cons. cbn [app]. rewrite <- !app_assoc. apply noiv_start. eapply start_pr. exact Hx.
+    - do 3 (apply andb_prop in Hok; destruct Hok as [Hok _]).
+      cbn [pr app]. rewrite <- !app_assoc. apply noiv_start. eapply start_pr. exact Hok.
+    - do 3 (apply andb_prop in Hok; destruct Hok as [Hok _]).
+      cbn [pr app]. rewrite <- !app_assoc. apply noiv_start. eapply start_pr. exact Hok.
+    - do 3 (apply andb_prop in Hok; destruct Hok as [Hok _]).
+      cbn [pr app]. rewrite <- !app_assoc. apply noiv_start. eapply start_pr. exact Hok.
+    - do 4 (apply andb_prop in Hok; destruct Hok as [Hok _]).
+      cbn [pr app]. rewrite <- !app_assoc. apply noiv_start. eapply start_pr. exact Hok.
+  Qed.
+
+  Lemma prF_head f args X : exists r, pr W (EFluent f args) ++ X = TName (nmF W f) :: r.
+  Proof. destruct args; cbn [pr app]; eauto. Qed.
+
+  Lemma tok_kind_kind k : tok_kind (kind_tok k) = Some k.
+  Proof. destruct k; reflexivity. Qed.
+
+  (* "f(args) op value ;" *)
+  Lemma assign_rt bs f args k v rest n :
+    anml_ok R arity bs (EFluent f args) = true -> anml_ok R arity bs v = true ->
+    20 * length (pr W (EFluent f args)) + 10 <= n -> 20 * length (pr W v) + 10 <= n ->
+    parse_assign R n (rscope W bs) (pr W (EFluent f args) ++ kind_tok k :: pr W v ++ TSemi :: rest)
+    = Some (f, map norm args, k, norm v, rest).
+  Proof.
+    intros HF Hv L1 L2. unfold parse_assign.
+    rewrite (expr_step W R arity HN (EFluent f args) bs (kind_tok k :: pr W v ++ TSemi :: rest) n HF
+               ltac:(destruct k; reflexivity) ltac:(destruct k; reflexivity) L1).
+    cbn [norm]. rewrite tok_kind_kind.
+    rewrite (expr_step W R arity HN v bs (TSemi :: rest) n Hv eq_refl eq_refl L2). reflexivity.
+  Qed.
+End E.
+
+Definition nofa (r : list token) : bool := match r with TForall :: _ => false | _ => true end.
+Lemma not_forall_branch {X} (r : list token) (A : list token -> X) (B : X) :
+  nofa r = true -> match r with TForall :: TLp :: r1 => A r1 | _ => B end = B.
+Proof. destruct r as [|t r]; [reflexivity|]. destruct t; try reflexivity; discriminate. Qed.
+
+Section F.
+  Variable W : wnames.
+  Variable R : rtables.
+  Variable arity : N -> nat.
+  Hypothesis HN : names_ok W R arity.
+
+  Lemma timing_eqb_refl t : timing_eqb t t = true.
+  Proof. destruct t as [a q]. unfold timing_eqb. cbn. rewrite qc_eqb_refl. destruct a; reflexivity. Qed.
+  Lemma point_rt tm rest : timing_ok tm = true ->
+    parse_interval (TLsq :: pr_timing tm ++ TRsq :: rest) = Some (PPoint tm, rest).
+  Proof.
+    intros H. pose proof (interval_rt (point_iv tm) rest) as X.
+    unfold interval_ok, pr_interval, point_iv in X. cbn [ti_lo ti_hi ti_lopen ti_ropen] in X.
+    rewrite timing_eqb_refl, H in X. cbn [app] in X. rewrite <- app_assoc in X. cbn [app] in X. apply X. reflexivity.
+  Qed.
+
+  (* the two branches of parse_effect *)
+  Definition eff_nf (n : nat) (oiv : option piv) (r : list token) : option pstmt :=
+    match parse_core R n [] [] r with
+    | Some (civ, eiv, oc, (f, args, kd, v), []) =>
+        match merge3 oiv civ eiv with
+        | Some (Some (PIv _)) => None
+        | Some fin =>
+            let tm := match fin with Some (PPoint t) => t | _ => start_tm end in
+            let c := match oc with Some c => c | None => EBool true end in
+            Some (PEff tm (mk_effect R f args kd v c []))
+        | None => None
+        end
+    | _ => None
+    end.
+  Definition eff_fa (n : nat) (oiv : option piv) (r1 : list token) : option pstmt :=
+    match pvars r1 with
+    | Some (decls, TLb :: r2) =>
+        match decl_types R decls with
+        | Some d =>
+            let d' := dict_of d in
+            let vs := map (fun p => (varOf R (fst p), snd p)) d' in
+            match parse_core R n d' d' r2 with
+            | Some (civ, eiv, oc, (f, args, kd, v), [TRb; TSemi]) =>
+                match merge3 oiv civ eiv with
+                | Some (Some (PIv _)) => None
+                | Some fin =>
+                    let tm := match fin with Some (PPoint t) => t | _ => start_tm end in
+                    let c := match oc with Some c => EAnd [c; EBool true] | None => EBool true end in
+                    Some (PEff tm (mk_effect R f args kd v c vs))
+                | None => None
+                end
+            | _ => None
+            end
+        | None => None
+        end
+    | _ => None
+    end.
+  Lemma pe_unfold n ts :
+    parse_effect R n ts =
+    let (oiv, r) := opt_interval ts in
+    match r with TForall :: TLp :: r1 => eff_fa n oiv r1 | _ => eff_nf n oiv r end.
+  Proof. reflexivity. Qed.
+
+  Lemma parse_core_name n csc sc s r :
+    parse_core R n csc sc (TName s :: r) =
+    match parse_assign R n sc (TName s :: r) with
+    | Some (f, args, kd, v, r') => Some (None, None, None, (f, args, kd, v), r')
+    | None => None
+    end.
+  Proof. reflexivity. Qed.
+
+  Definition F_of (e : effect) : expr := EFluent (e_fl e) (e_args e).
+
+  Lemma core_rt bs e rest n :
+    anml_ok R arity bs (F_of e) = true -> anml_ok R arity bs (e_val e) = true ->
+    (is_cond e = true -> anml_ok R arity bs (e_cond e) = true) ->
+    20 * length (pr_effect_core W e) + 10 <= n ->
+    parse_core R n (rscope W bs) (rscope W bs) (pr_effect_core W e ++ rest)
+    = Some (None, None, (if is_cond e then Some (norm (e_cond e)) else None),
+            (e_fl e, map norm (e_args e), e_kind e, norm (e_val e)), rest).
+  Proof.
+    intros HF Hv Hc. unfold pr_effect_core. fold (F_of e). destruct (is_cond e) eqn:C.
+    - specialize (Hc eq_refl). intros L.
+      replace ((TWhen :: pr W (e_cond e) ++ [TLb]) ++ pr W (F_of e) ++ kind_tok (e_kind e) :: pr W (e_val e) ++ [TSemi] ++ [TRb; TSemi])
+        with (TWhen :: pr W (e_cond e) ++ TLb :: pr W (F_of e) ++ kind_tok (e_kind e) :: pr W (e_val e) ++ TSemi :: TRb :: [TSemi]) in *
+        by (cbn [app]; f_equal; repeat (rewrite <- app_assoc; cbn [app]); reflexivity).
+      replace ((TWhen :: pr W (e_cond e) ++ TLb :: pr W (F_of e) ++ kind_tok (e_kind e) :: pr W (e_val e) ++ TSemi :: TRb :: [TSemi]) ++ rest)
+        with (TWhen :: pr W (e_cond e) ++ TLb :: pr W (F_of e) ++ kind_tok (e_kind e) :: pr W (e_val e) ++ TSemi :: TRb :: TSemi :: rest)
+        by (cbn [app]; f_equal; repeat (rewrite <- app_assoc; cbn [app]); reflexivity).
+      cbn [length] in L. repeat (rewrite app_length in L; cbn [length] in L).
+      cbn [parse_core]. rewrite (noiv_none _ (noiv_pr W R arity (e_cond e) bs _ Hc)).
+      rewrite (expr_step W R arity HN (e_cond e) bs (TLb :: pr W (F_of e) ++ kind_tok (e_kind e) :: pr W (e_val e) ++ TSemi :: TRb :: TSemi :: rest) n Hc eq_refl eq_refl ltac:(lia)).
+      assert (NI : forall Y, opt_interval (pr W (F_of e) ++ Y) = (None, pr W (F_of e) ++ Y)).
+      { intros Y. destruct (prF_head W (e_fl e) (e_args e) Y) as [r0 E]. unfold F_of. rewrite E. reflexivity. }
+      rewrite NI. unfold F_of.
+      rewrite (assign_rt W R arity HN bs (e_fl e) (e_args e) (e_kind e) (e_val e) (TRb :: TSemi :: rest) n HF Hv
+                 ltac:(unfold F_of in L; lia) ltac:(lia)).
+      reflexivity.
+    - intros L. cbn [app]. rewrite app_nil_r in *. 
+      replace ((pr W (F_of e) ++ kind_tok (e_kind e) :: pr W (e_val e) ++ [TSemi]) ++ rest)
+        with (pr W (F_of e) ++ kind_tok (e_kind e) :: pr W (e_val e) ++ TSemi :: rest)
+        by (repeat (rewrite <- app_assoc; cbn [app]); reflexivity).
+      repeat (rewrite app_length in L; cbn [length] in L).
+      unfold F_of in *.
+      destruct (prF_head W (e_fl e) (e_args e) (kind_tok (e_kind e) :: pr W (e_val e) ++ TSemi :: rest)) as [r0 E].
+      rewrite E, parse_core_name, <- E.
+      rewrite (assign_rt W R arity HN bs (e_fl e) (e_args e) (e_kind e) (e_val e) rest n HF Hv ltac:(lia) ltac:(lia)).
+      reflexivity.
+  Qed.
+End F.
+
+Section G.
+  Variable W : wnames.
+  Variable R : rtables.
+  Variable arity : N -> nat.
+  Hypothesis HN : names_ok W R arity.
+
+  Lemma core_has_kind e : existsb is_stmt_tok (pr_effect_core W e) = true.
+  Proof.
+    unfold pr_effect_core. rewrite existsb_app, (existsb_app _ (pr W _)). cbn [existsb].
+    replace (is_stmt_tok (kind_tok (e_kind e))) with true by (destruct (e_kind e); reflexivity).
+    cbn [orb]. rewrite !orb_true_r. reflexivity.
+  Qed.
+  Lemma nofa_core e : nofa (pr_effect_core W e) = true.
+  Proof.
+    unfold pr_effect_core. destruct (is_cond e); [reflexivity|]. cbn [app].
+    destruct (prF_head W (e_fl e) (e_args e) (kind_tok (e_kind e) :: pr W (e_val e) ++ [TSemi])) as [r0 E].
+    rewrite E. reflexivity.
+  Qed.
+
+  Theorem effect_rt tm e : stmt_ok R arity (SEff tm e) = true ->
+    parse_stmt R (pr_stmt W (SEff tm e)) = Some (PEff tm (norm_effect e)).
+  Proof.
+    cbn [stmt_ok]. unfold effect_ok. intros H.
+    apply andb_prop in H. destruct H as [Htm H]. apply andb_prop in H. destruct H as [H Hib].
+    apply andb_prop in H. destruct H as [H Hnd]. apply andb_prop in H. destruct H as [H Hc].
+    apply andb_prop in H. destruct H as [HF Hv]. apply Bool.eqb_prop in Hib.
+    assert (Hc' : is_cond e = true -> anml_ok R arity (e_vars e) (e_cond e) = true)
+      by (intros E; rewrite E in Hc; exact Hc).
+    unfold parse_stmt.
+    assert (Ex : existsb is_stmt_tok (pr_stmt W (SEff tm e)) = true).
+    { cbn [pr_stmt existsb]. rewrite existsb_app. cbn [existsb].
+      destruct (is_forall e).
+      - cbn [existsb]. rewrite existsb_app. cbn [existsb]. rewrite existsb_app, core_has_kind. cbn [orb].
+        rewrite !orb_true_r. reflexivity.
+      - rewrite core_has_kind. rewrite !orb_true_r. reflexivity. }
+    rewrite Ex. rewrite pe_unfold. unfold opt_interval.
+    set (n := fuel_of (pr_stmt W (SEff tm e))).
+    assert (Ln : 20 * length (pr_effect_core W e) + 10 <= n).
+    { unfold n, fuel_of. cbn [pr_stmt length]. rewrite app_length. cbn [length].
+      destruct (is_forall e); [cbn [length]; rewrite app_length; cbn [length]; rewrite app_length|]; lia. }
+    cbn [pr_stmt]. rewrite (point_rt tm _ Htm).
+    unfold is_forall in *. destruct (e_vars e) as [|p vs0] eqn:EV.
+    - (* not quantified *)
+      rewrite (not_forall_branch _ (eff_fa R n (Some (PPoint tm))) _ (nofa_core e)).
+      unfold eff_nf. change (@nil (N * N)) with (rscope W []).
+      rewrite <- (app_nil_r (pr_effect_core W e)).
+      rewrite (core_rt W R arity HN [] e [] n HF Hv Hc' Ln).
+      cbn [merge3 merge2]. unfold norm_effect, mk_effect, is_forall. rewrite EV.
+      destruct e; cbn in *. subst. destruct (is_cond _); reflexivity.
+    - (* forall *)
+      assert (Hvs : e_vars e <> []) by (rewrite EV; discriminate). rewrite <- EV in *. clear EV p vs0.
+      cbv iota. unfold eff_fa.
+      rewrite (pvars_pr W (e_vars e) _ Hvs), (decl_types_of W R arity HN), (dict_of_rscope W R arity HN _ Hnd).
+      rewrite (core_rt W R arity HN (e_vars e) e [TRb; TSemi] n HF Hv Hc' Ln).
+      cbn [merge3 merge2]. rewrite (quant_vars W R arity HN).
+      unfold norm_effect, mk_effect, is_forall.
+      destruct e; cbn in *. subst. destruct e_vars; [congruence|]. destruct (is_cond _); reflexivity.
+  Qed.
+End G.
